@@ -61,6 +61,15 @@ CLAIMED["C15"] = dict(cat="fault_enumeration", ref="7 C15",
   note="token-level malformations and corpora, not coverage-guided fuzzing of arbitrary bytes (DESIGN section 9); one recorded finding (unquoted BYTERANGE) is tolerated by signature",
   technique="TLA+ grammar automaton checked by TLC on recorded tokens; model-driven fault enumeration for the decoder")
 
+CLI_NOTE = ("streams synthesised by the harness (H264, AAC, Opus; MPEG-TS and fMP4) and served by an in-process http.RoundTripper; "
+            "one unit lasts 20 ms (real-time pacing of the client)")
+CLAIMED["C11"] = dict(cat="model_checking", ref="7 C11", note=CLI_NOTE + "; request arrival order at the stub = issue order per stream",
+  text="ClientFetch.tla: the downloader state machine (first playlist, init, Select, segment, reload; Low-Latency hint loop) against a server whose window slides arbitrarily between polls; TLC checks consecutive / start position / too-late / EOS / errors-justified on every reachable state, refutes two weakened selection rules, and emits playlist histories; the real Client is run against each history (plus URI, query, byte-range, rendition, Low-Latency variety) and TLC validates the stub's request log and Wait() against the same operators (ClientRun.tla)",
+  technique="TLA+ model + TLC exhaustive check; TLC-generated playlist histories served to the real Client; TLC trace validation of the request log")
+CLAIMED["C10"] = dict(cat="model_checking", ref="7 C10", note=CLI_NOTE + "; arithmetic beyond TLC's 32-bit integers (2^40 bases, 33-bit circle) is evaluated exactly by the trace annotator as error terms that TLC requires to be 0; one recorded finding (stale date-time anchor for early MPEG-TS units) is tolerated by signature",
+  text="ClientRun.tla judges every OnTracks / OnData callback of the real Client over synthesised streams (timestamp bases 0..2^40 and around the 33-bit wrap, 1 video + 0..3 audio in one playlist or as renditions with different time scales, track order / id permutations, B-frame PTS offsets, multi-fragment segments, byte ranges, PROGRAM-DATE-TIME with jumps, VOD and live starts): track list, byte identity, per-track order and exactly-once, only downloaded units, never negative time, DTS / PTS / AbsoluteTime error terms, everything delivered at EOS",
+  technique="TLA+ monitor (ClientRun.tla) checked by TLC on traces recorded from the real Client; exact-arithmetic annotator for timestamps")
+
 PENDING = "check not built yet in this session (planned, see DESIGN.md section 7); will be claimed once its TLA+ model and conformance harness are committed"
 
 
